@@ -417,6 +417,35 @@ package mast
 //@ modifies W Box.Int@fresh
 //@ ensures nonnil (not (= result 0))
 
+// the default key order on the built-in integer key types: the sign of the comparison, as a value
+// in {-1,0,1}, for every pair of keys (no difference tricks: they overflow)
+//@ func DefaultKeyCompare$1
+//@ tags C01 C14
+//@ waive safe/nil#1 the receiver of v.Order is the non-nil interface value the type switch just matched (interface-to-interface assertions are not modelled as implying non-nil)
+//@ waive safe/ifacecmp#1 reflect.Type values are comparable (pointers to runtime type descriptors); reflect is outside the model
+//@ waive safe/nilfunc#1 the marshaler is only called for key types that are neither built in nor mast.Key; a nil marshaler is the caller's choice for trees that use built-in keys only
+//@ waive safe/nilfunc#2 same call site pair as nilfunc#1 (right operand)
+//@ ensures int [C01 C14] (=> (and (= (a.tid i) tid.int) (= (a.tid i2) tid.int) (not (implements.Key tid.int))) (and (= result1 anil) (= result0 (ite (< (a.val i) (a.val i2)) (- 1) (ite (> (a.val i) (a.val i2)) 1 0)))))
+//@ ensures int64 [C01 C14] (=> (and (= (a.tid i) tid.int64) (= (a.tid i2) tid.int64) (not (implements.Key tid.int64))) (and (= result1 anil) (= result0 (ite (< (a.val i) (a.val i2)) (- 1) (ite (> (a.val i) (a.val i2)) 1 0)))))
+//@ ensures uint [C01 C14] (=> (and (= (a.tid i) tid.uint) (= (a.tid i2) tid.uint) (not (implements.Key tid.uint))) (and (= result1 anil) (= result0 (ite (< (a.val i) (a.val i2)) (- 1) (ite (> (a.val i) (a.val i2)) 1 0)))))
+//@ ensures uint64 [C01 C14] (=> (and (= (a.tid i) tid.uint64) (= (a.tid i2) tid.uint64) (not (implements.Key tid.uint64))) (and (= result1 anil) (= result0 (ite (< (a.val i) (a.val i2)) (- 1) (ite (> (a.val i) (a.val i2)) 1 0)))))
+
+// the default layer of the built-in integer key types is the number of times the branch factor
+// divides the key (spec function lay, see intLayer/uintLayer)
+//@ func DefaultLayer$1
+//@ uses lay
+//@ tags C14
+//@ waive safe/nilfunc#1 the marshaler is only called for key types that are neither built in nor mast.Key
+//@ waive safe/nil#1 the receiver of v.Layer is the non-nil interface value the type switch just matched
+//@ waive safe/panic#1 the code panics on purpose when asked for the layer of a non-built-in key type without a marshaler
+//@ requires bf [C14] (and (>= branchFactor 2) (< branchFactor 9223372036854775808))
+//@ ensures int [C14] (=> (and (= (a.tid i) tid.int) (not (implements.Key tid.int))) (and (= result1 anil) (= result0 (mod (lay (a.val i) branchFactor) 256))))
+//@ ensures int64 [C14] (=> (and (= (a.tid i) tid.int64) (not (implements.Key tid.int64))) (and (= result1 anil) (= result0 (mod (lay (a.val i) branchFactor) 256))))
+//@ ensures uint [C14] (=> (and (= (a.tid i) tid.uint) (not (implements.Key tid.uint))) (and (= result1 anil) (= result0 (mod (lay (a.val i) branchFactor) 256))))
+//@ ensures uint64 [C14] (=> (and (= (a.tid i) tid.uint64) (not (implements.Key tid.uint64))) (and (= result1 anil) (= result0 (mod (lay (a.val i) branchFactor) 256))))
+//@ ensures int32 [C14] (=> (and (= (a.tid i) tid.int32) (not (implements.Key tid.int32))) (and (= result1 anil) (= result0 (mod (lay (a.val i) branchFactor) 256))))
+//@ ensures uint16 [C14] (=> (and (= (a.tid i) tid.uint16) (not (implements.Key tid.uint16))) (and (= result1 anil) (= result0 (mod (lay (a.val i) branchFactor) 256))))
+
 //@ func DefaultLayer
 //@ tags C14 C19
 //@ modifies W Box.Int@fresh
